@@ -435,6 +435,8 @@ def work_addresses(job):
         for i in range(lo, hi):
             rng = core.job_rng(seed, ID, 'addr', i)
             host = 'b' + ''.join(rng.choice(ADDR_ATOMS) for _ in range(rng.randint(1, 5))) + 'cher.example'
+            # atoms must not join into something that reads as an entity ('&' 'x' ';'): an author-typed entity is passed through by design
+            host = re.sub(r'&(?=[A-Za-z0-9#]+;)', '&-', host)
             form = rng.choice(['Write to <info@%s> today.\n', '# Contact <info@%s> #\n\ntext\n', '* item <mailto:info@%s>\n', 'See <http://%s/p?a=1&b=2> here.\n', '| a | <info@%s> |\n|---|---|\n| c | d |\n',
                                'Cited [p. %s][#foo].\n\n[#foo]: Author. *Title*.\n', 'Again [%s][#foo] and [%s][#foo].\n\n[#foo]: Author.\n',
                                'A brace pair {=%s} that follows no code span is text.\n', 'term [?g]\n\n[?g]: gloss {=%s<} here\n'])
